@@ -1,6 +1,8 @@
 (* C05 - Blocking is transparent: block overlap gives full kernel coverage at seams. *)
 From Coq Require Import ZArith QArith List Bool Lia.
 From HV Require Import Base.QSum Grid.Window Grid.WindowProofs Kernel.Fit Kernel.Spec Kernel.Laws Kernel.Corollaries.
+From HVgen Require Import Blocks.
+From HV Require Import Tie.BlockTie.
 Open Scope Z_scope.
 
 (* the overlap block_pairs is given covers the kernel half-size plus one processing pixel *)
@@ -66,3 +68,12 @@ Example C05_gain_blk_offset_depends_on_block :
               sm := fun _ _ => true; rm := fun _ _ => true |} in
   gbo_params (ksums (norm_blk b 1 0) 1 1 0 0) 1 0 <> gbo_params (ksums (norm_blk b 2 3) 1 1 0 0) 2 3.
 Proof. vm_compute. intro H. discriminate H. Qed.
+
+(* ---- tie to the source: the overlap the current fuse.py hands to block_pairs is overlap_for_kernel (= ceil (k / 2)) of the kernel it was
+        given, hence at least the kernel half-size + 1 the seam lemma needs *)
+Theorem C05_source_overlap_covers_kernel k : 1 <= k -> k mod 2 = 1 ->
+  (k - 1) / 2 + 1 <= gen_fuse_overlap false k /\ (k - 1) / 2 + 1 + 1 <= gen_fuse_overlap true k.
+Proof. exact (tie_fuse_overlap k). Qed.
+Theorem C05_source_overlap_for_kernel k : gen_overlap_for_kernel k = overlap_for_kernel k.
+Proof. exact (tie_overlap k). Qed.
+Print Assumptions C05_source_overlap_covers_kernel.
